@@ -1,14 +1,15 @@
-(* The translated source (Gen/PylSrc.v, regenerated from /repo on every run) denotes, through the semantics
-   of Model/Pyl.v, exactly the hand-written models of Model/Builtins.v and Model/Itertools.v: equal as world
-   transformers, for every argument, consumer and world (sources, fault plan, use counter).  All theorems of
-   Props/ about these models therefore hold of what the code says now. *)
+(* Aggregations.  The translated source (Gen/PylSrc.v, regenerated from /repo on every run) denotes, through the
+   semantics of Model/Pyl.v, exactly the hand-written models of Model/Builtins.v and Model/Heapq.v: equal as
+   world transformers, for every argument and world (sources, fault plan, use counter).  All theorems of
+   Props/ about these models therefore hold of what the code says now.
+   The generator functions are in Proofs/PylEquivIter.v, so that a change to one source function only breaks
+   the file that concerns it. *)
 From Coq Require Import List ZArith NArith Bool Arith String Lia.
 Import ListNotations.
-Require Import V.Kernel.Values V.Kernel.Monad V.Model.Builtins V.Model.Itertools V.Model.Heapq V.Model.Pyl V.Gen.PylSrc V.Proofs.PylRel.
+Require Import V.Kernel.Values V.Kernel.Monad V.Model.Builtins V.Model.Itertools V.Model.Heapq V.Model.Pyl V.Gen.PylSrc V.Proofs.PylRel V.Proofs.PylTac.
 
 Definition fn_arg (f : option (list val -> val)) : callee :=
   match f with None => CNoneFn | Some p => CUser 0 p end.
-
 
 (* keep the primitives of the calculus folded while [cbn] evaluates [exec]/[eval] and the environments *)
 #[local] Arguments bind : simpl never.
@@ -23,12 +24,6 @@ Definition fn_arg (f : option (list val -> val)) : callee :=
 #[local] Arguments iter_src : simpl never.
 #[local] Arguments each : simpl never.
 #[local] Arguments collect : simpl never.
-
-(* evaluate the interpreter, re-associate binds to the right and remove [ret]s at the head *)
-Ltac norm := repeat (cbn; repeat rewrite mbind_assoc; repeat rewrite mbind_ret_l).
-
-Lemma unit_ret_rel (u : unit) w : orel eq (ret tt w) (ret u w).
-Proof. destruct u. apply orel_refl. Qed.
 
 (* ---------- all / any ---------- *)
 Theorem src_all_ok : forall w, run_corofn src_all [AIter 0] w = a_all w.
@@ -95,138 +90,6 @@ Proof.
   - intros [en sg] r w1 HR. cbn [fst snd] in HR |- *. subst sg. norm. apply orel_ret. reflexivity.
 Qed.
 
-(* ---------- generators ---------- *)
-(* results nobody looks at *)
-Definition any_rel {A B} (_ : A) (_ : B) : Prop := True.
-(* the translated function's trailing [ret]s after the last loop, against the model's [ret tt] *)
-Ltac trailing :=
-  let en := fresh "en" in let sg := fresh "sg" in let c := fresh "c" in
-  let r2 := fresh "r2" in let w' := fresh "w'" in let H := fresh "H" in
-  intros [[en sg] c] r2 w' H; destruct sg; norm; apply orel_ret; exact I.
-(* generator functions return nothing: [exec ... ;;; ret tt] against a model of type [M unit] *)
-Ltac gen_frame :=
-  apply bind_rel_l with (R := any_rel); [|intros ? ? ? _; apply unit_ret_rel].
-
-Theorem src_filter_ok : forall f yield w,
-  run_genfn src_filter [AFn (fn_arg f); AIter 0] yield w = a_filter f yield w.
-Proof.
-  intros f yield w. unfold run_genfn, src_filter, a_filter, each. apply orel_eq.
-  destruct f as [p|]; norm; gen_frame; apply scoped_rel; norm.
-  - apply (bind_rel (exit_rel (fun (st1 : env * sig) (_ : unit) =>
-                                 lookup "function" (e_fns (fst st1)) = Some (CUser 0 p)) any_rel));
-      [|trailing].
-    apply loop_src_rel; [|reflexivity].
-    intros st1 st2 x w1 HR. norm. rewrite HR. norm. apply bind_same. intros r w2. norm.
-    destruct (truthy r); norm.
-    + apply bind_same. intros u w3. norm. apply orel_ret, step_rel_cont. exact HR.
-    + apply orel_ret, step_rel_cont. exact HR.
-  - apply (bind_rel (exit_rel (fun (st1 : env * sig) (_ : unit) => True) any_rel)); [|trailing].
-    apply loop_src_rel; [|exact I].
-    intros st1 st2 x w1 HR. norm. destruct (truthy x); norm.
-    + apply bind_same. intros u w3. norm. apply orel_ret, step_rel_cont. exact I.
-    + apply orel_ret, step_rel_cont. exact I.
-Qed.
-
-Theorem src_enumerate_ok : forall start yield w,
-  run_genfn src_enumerate [AIter 0; AVal (VInt start)] yield w = a_enumerate start yield w.
-Proof.
-  intros start yield w. unfold run_genfn, src_enumerate, a_enumerate. apply orel_eq.
-  norm. gen_frame. apply scoped_rel. norm.
-  apply (bind_rel (exit_rel (fun (st1 : env * sig) (c : Z) =>
-                               lookup "count" (e_vars (fst st1)) = Some (Some (VInt c))) any_rel)); [|trailing].
-  apply loop_src_rel; [|reflexivity].
-  intros st1 c x w1 HR. norm. rewrite HR. norm. apply bind_same. intros u w2. norm.
-  rewrite HR. norm. apply orel_ret, step_rel_cont. reflexivity.
-Qed.
-
-Theorem src_takewhile_ok : forall p yield w,
-  run_genfn src_takewhile [AFn (CUser 0 p); AIter 0] yield w = a_takewhile p yield w.
-Proof.
-  intros p yield w. unfold run_genfn, src_takewhile, a_takewhile. apply orel_eq.
-  norm. gen_frame. apply scoped_rel. norm.
-  apply (bind_rel (exit_rel (fun (st1 : env * sig) (_ : unit) =>
-                               lookup "predicate" (e_fns (fst st1)) = Some (CUser 0 p)) any_rel)); [|trailing].
-  apply loop_src_rel; [|reflexivity].
-  intros st1 st2 x w1 HR. norm. rewrite HR. norm. apply bind_same. intros r w2. norm.
-  destruct (truthy r); norm.
-  - apply bind_same. intros u w3. norm. apply orel_ret, step_rel_cont. exact HR.
-  - apply orel_ret, step_rel_break. exact I.
-Qed.
-
-Theorem src_dropwhile_ok : forall p yield w,
-  run_genfn src_dropwhile [AFn (CUser 0 p); AIter 0] yield w = a_dropwhile p yield w.
-Proof.
-  intros p yield w. unfold run_genfn, src_dropwhile, a_dropwhile, each. apply orel_eq.
-  norm. gen_frame. apply scoped_rel. norm.
-  pose (inv := fun (sg : sig) (st1 : env * sig) (_ : unit) =>
-                 lookup "predicate" (e_fns (fst st1)) = Some (CUser 0 p) /\
-                 lookup "async_iter" (e_its (fst st1)) = Some 0 /\ snd st1 = sg).
-  apply (bind_rel (exit_rel (inv Normal) (inv Brk))).
-  - apply loop_src_rel; [|repeat split].
-    intros st1 st2 x w1 HR. destruct HR as (HF & HI & HS). norm. rewrite HF. norm.
-    apply bind_same. intros r w2. norm. destruct (truthy r); norm.
-    + apply orel_ret, step_rel_cont. repeat split; assumption.
-    + apply bind_same. intros u w3. norm. apply orel_ret, step_rel_break. repeat split; assumption.
-  - intros [[en sg] c1] [u c2] w1 [Hc HR]. cbn [fst snd] in Hc, HR |- *. subst c2.
-    destruct c1; destruct HR as (HF & HI & HS); cbn [fst snd] in HF, HI, HS; subst sg; norm.
-    + rewrite HI. norm.
-      apply (bind_rel (exit_rel (fun (st1 : env * sig) (_ : unit) => True) any_rel)); [|trailing].
-      apply loop_src_rel; [|exact I].
-      intros st1 st2 x w2 HR. norm. apply bind_same. intros u' w3. norm.
-      apply orel_ret, step_rel_cont. exact I.
-    + apply orel_ret. exact I.
-Qed.
-
-Theorem src_filterfalse_ok : forall f yield w,
-  run_genfn src_filterfalse [AFn (fn_arg f); AIter 0] yield w = a_filterfalse f yield w.
-Proof.
-  intros f yield w. unfold run_genfn, src_filterfalse, a_filterfalse, each. apply orel_eq.
-  destruct f as [p|]; norm; gen_frame; apply scoped_rel; norm.
-  - apply (bind_rel (exit_rel (fun (st1 : env * sig) (_ : unit) =>
-                                 lookup "predicate" (e_fns (fst st1)) = Some (CUser 0 p)) any_rel));
-      [|trailing].
-    apply loop_src_rel; [|reflexivity].
-    intros st1 st2 x w1 HR. norm. rewrite HR. norm. apply bind_same. intros r w2. norm.
-    destruct (truthy r); norm.
-    + apply orel_ret, step_rel_cont. exact HR.
-    + apply bind_same. intros u w3. norm. apply orel_ret, step_rel_cont. exact HR.
-  - apply (bind_rel (exit_rel (fun (st1 : env * sig) (_ : unit) =>
-                                 lookup "predicate" (e_fns (fst st1)) = Some CBool) any_rel));
-      [|trailing].
-    apply loop_src_rel; [|reflexivity].
-    intros st1 st2 x w1 HR. norm. rewrite HR. norm. destruct (truthy x); norm.
-    + apply orel_ret, step_rel_cont. exact HR.
-    + apply bind_same. intros u w3. norm. apply orel_ret, step_rel_cont. exact HR.
-Qed.
-
-Theorem src_starmap_ok : forall f yield w,
-  run_genfn src_starmap [AFn (CUser 0 f); AIter 0] yield w = a_starmap f yield w.
-Proof.
-  intros f yield w. unfold run_genfn, src_starmap, a_starmap, each. apply orel_eq.
-  norm. gen_frame. apply scoped_rel. norm.
-  apply (bind_rel (exit_rel (fun (st1 : env * sig) (_ : unit) =>
-                               lookup "function" (e_fns (fst st1)) = Some (CUser 0 f)) any_rel)); [|trailing].
-  apply loop_src_rel; [|reflexivity].
-  intros st1 st2 x w1 HR. norm. rewrite HR. norm.
-  destruct x as [cls k tag|z|b| | |args|args]; norm; try apply orel_raise;
-    (apply bind_same; intros r w2; norm; apply bind_same; intros u w3; norm;
-     apply orel_ret, step_rel_cont; exact HR).
-Qed.
-
-Theorem src_pairwise_ok : forall yield w,
-  run_genfn src_pairwise [AIter 0] yield w = a_pairwise yield w.
-Proof.
-  intros yield w. unfold run_genfn, src_pairwise, a_pairwise. apply orel_eq.
-  norm. gen_frame. apply scoped_rel. norm.
-  apply bind_same. intros [first|] w1; norm.
-  - apply (bind_rel (exit_rel (fun (st1 : env * sig) (prev : val) =>
-                                 lookup "prev" (e_vars (fst st1)) = Some (Some prev)) any_rel)); [|trailing].
-    apply loop_src_rel; [|reflexivity].
-    intros st1 prev x w2 HR. norm. rewrite HR. norm. apply bind_same. intros u w3. norm.
-    apply orel_ret, step_rel_cont. reflexivity.
-  - apply orel_ret. exact I.
-Qed.
-
 (* ---------- second batch: sum, _min_max, accumulate, reduce ---------- *)
 Theorem src_sum_ok : forall start w, run_corofn src_sum [AIter 0; AVal start] w = a_sum start w.
 Proof.
@@ -247,9 +110,6 @@ Proof.
   - intros [en sg] [t c] w1 [HS HR]. cbn [fst snd] in HS, HR |- *. subst sg. norm. rewrite HR. norm.
     apply orel_ret. reflexivity.
 Qed.
-
-Definition fn_arg_add (f : option (list val -> val)) : callee :=
-  match f with None => CAdd | Some g => CUser 0 g end.
 
 Theorem src_reduce_ok : forall f initial w,
   run_corofn src_reduce [AFn (CUser 0 f); AIter 0; AOpt initial] w = a_reduce f initial w.
@@ -293,38 +153,6 @@ Proof.
     apply scoped_rel. norm. apply bind_same. intros [first|] w1; norm; [|apply orel_raise].
     apply bind_rel with (2 := Hexit).
     apply loop_src_rel; [exact Hbody|repeat split].
-Qed.
-
-Theorem src_accumulate_ok : forall f initial yield w,
-  run_genfn src_accumulate [AIter 0; AFn (fn_arg_add f); AOpt initial] yield w = a_accumulate f initial yield w.
-Proof.
-  intros f initial yield w. unfold run_genfn, src_accumulate, a_accumulate. apply orel_eq.
-  pose (inv := fun (st1 : env * sig) (v : val) =>
-                 lookup "function" (e_fns (fst st1)) = Some (fn_arg_add f) /\
-                 lookup "value" (e_vars (fst st1)) = Some (Some v)).
-  assert (Hbody : forall (st1 : env * sig) (t x : val) w2, inv st1 t ->
-            orel (step_rel inv any_rel)
-              ((r <- exec (SSeq (SAssign "value" (EAwaitCall2 "function" (EVar "value") (EVar "head")))
-                                (SYield (EVar "value")))
-                       (set_var (fst st1) "head" x) yield;;
-                match snd r with Normal => ret (r, true) | _ => ret (r, false) end) w2)
-              ((v <- match f with
-                     | Some g => call 0 g [t; x]
-                     | None => lift_val (py_add t x)
-                     end;; yield v;;; ret (v, true)) w2)).
-  { intros st1 t x w2 (HF' & HR). norm. rewrite HF', HR. norm.
-    apply (bind_rel eq).
-    - destruct f as [g|]; apply orel_refl.
-    - intros r ? w3 <-. norm. apply bind_same. intros u w4. norm.
-      apply orel_ret, step_rel_cont. split; [exact HF'|reflexivity]. }
-  destruct initial as [v0|]; norm; gen_frame; apply scoped_rel; norm.
-  - apply bind_same. intros u w1. norm.
-    apply (bind_rel (exit_rel inv any_rel)); [|trailing].
-    apply loop_src_rel; [exact Hbody|split; reflexivity].
-  - apply bind_same. intros [first|] w1; norm; [|apply orel_raise].
-    apply bind_same. intros u w2. norm.
-    apply (bind_rel (exit_rel inv any_rel)); [|trailing].
-    apply loop_src_rel; [exact Hbody|split; reflexivity].
 Qed.
 
 Theorem src_min_max_ok : forall invert key default w,
@@ -415,7 +243,7 @@ Qed.
 Theorem min_max_wrappers_ok : min_max_wrappers = [("max"%string, Some true); ("min"%string, Some false)].
 Proof. reflexivity. Qed.
 
-Theorem all_sources_supported : forallb (fun f => supported (f_body f)) all_sources = true.
+Theorem agg_sources_supported : forallb (fun f => supported (f_body f)) agg_sources = true.
 Proof. vm_compute. reflexivity. Qed.
 
 Print Assumptions src_all_ok.
@@ -423,16 +251,8 @@ Print Assumptions src_any_ok.
 Print Assumptions src_list_ok.
 Print Assumptions src_tuple_ok.
 Print Assumptions src_set_ok.
-Print Assumptions src_filter_ok.
-Print Assumptions src_enumerate_ok.
-Print Assumptions src_takewhile_ok.
-Print Assumptions src_dropwhile_ok.
-Print Assumptions src_filterfalse_ok.
-Print Assumptions src_starmap_ok.
-Print Assumptions src_pairwise_ok.
-Print Assumptions all_sources_supported.
 Print Assumptions src_sum_ok.
 Print Assumptions src_min_max_ok.
 Print Assumptions min_max_wrappers_ok.
-Print Assumptions src_accumulate_ok.
 Print Assumptions src_reduce_ok.
+Print Assumptions agg_sources_supported.
